@@ -119,6 +119,7 @@ def run(ctx):
     p1dofs.p1_dof_decisions(ctx)
     rwgdofs.rwg_dof_decisions(ctx)
     singular_after(ctx)
+    rules.elements_adjacent_complete(ctx)  # the predicate that routes a pair to the singular rule (ADJ-9)
 
 
 def csr_ranges(it, stores):
